@@ -503,16 +503,19 @@ def _work(case):
     return lines, notes, n, why, nontrivial(lines), jhash(lines)
 
 
-def _execute_all(cases, procs=4):
-    """Plans are independent: executed in a few worker processes (the real queue is pure Python)."""
-    if len(cases) < 2000:
-        return [_work(c) for c in cases]
-    import multiprocessing as mp
-    with mp.get_context("fork").Pool(procs) as pool:
-        return pool.map(_work, cases, chunksize=500)
-
-
 def check_C11(tier, seed):
+    # worker processes for executing the plans are forked first, while this process is still
+    # single-threaded (TLC runs are driven from threads further down)
+    import multiprocessing as mp
+    pool = mp.get_context("fork").Pool(4)
+    try:
+        return _check_C11(tier, seed, pool)
+    finally:
+        pool.terminate()
+        pool.join()
+
+
+def _check_C11(tier, seed, pool):
     rep = Report("C11", tier, seed)
     thorough = tier == "thorough"
     rep.rule = ("one trace = one TLC-generated plan (call sequence over add_event / add_events / get_event / "
@@ -531,16 +534,27 @@ def check_C11(tier, seed):
             "T1 GetEventMinimal, T2 OrderForEveryInterleaving, T3 CurrentExact/CurrentSplit, T4 Conservation, "
             "T5 QueriesReflect/QueriesPure, T6 RoundTripIdentity, T7 DrainSorted, T8 TimeThenUnplugPluginRecompute, TypeOK")
     heap_ev = 4 if thorough else 3
-    with ThreadPoolExecutor(max_workers=5) as ex:
-        f_mc = ex.submit(run_tlc, "MC_EventQueue", "EventQueue_mc", coverage=True, workers=4,
-                         overrides={"MaxEv": "= 3"}, timeout=900)
-        f_heap = ex.submit(run_tlc, "MC_EventQueueHeap", "EventQueueHeap_mc", coverage=True, workers=4 if thorough else 2,
-                           overrides={"MaxEv": "= %d" % heap_ev}, timeout=1500)
-        f_neg = ex.submit(run_tlc, "MC_EventQueueHeap", "EventQueueHeap_neg", workers=1, timeout=900)
-        f_gen = ex.submit(run_tlc, "MC_EventQueue", "EventQueue_gen", workers=1, timeout=900)
-        f_sim = ex.submit(run_tlc, "MC_EventQueue", "EventQueue_sim", workers=1, simulate=30000 if thorough else 3000,
-                          depth=14, seed=seed, timeout=900)
-        mc, heap, neg, gen, sim = [f.result() for f in (f_mc, f_heap, f_neg, f_gen, f_sim)]
+    ex = ThreadPoolExecutor(max_workers=8)
+    f_mc = ex.submit(run_tlc, "MC_EventQueue", "EventQueue_mc", coverage=True, workers=4,
+                     overrides={"MaxEv": "= 3"}, timeout=900)
+    f_heap = ex.submit(run_tlc, "MC_EventQueueHeap", "EventQueueHeap_mc", coverage=True, workers=4 if thorough else 2,
+                       overrides={"MaxEv": "= %d" % heap_ev}, timeout=1500)
+    f_neg = ex.submit(run_tlc, "MC_EventQueueHeap", "EventQueueHeap_neg", workers=1, timeout=900)
+    f_gen = ex.submit(run_tlc, "MC_EventQueue", "EventQueue_gen", workers=1, timeout=900)
+    f_sim = ex.submit(run_tlc, "MC_EventQueue", "EventQueue_sim", workers=1, simulate=30000 if thorough else 3000,
+                      depth=14, seed=seed, timeout=900)
+    f_mc4 = ex.submit(run_tlc, "MC_EventQueue", "EventQueue_mc", coverage=False, workers=8, timeout=1800) if thorough else None
+    try:
+        gen, sim = f_gen.result(), f_sim.result()
+        return _bind(rep, tier, seed, pool, gen, sim,
+                     lambda: _model_checking(rep, what, heap_ev, f_mc, f_heap, f_neg, f_mc4))
+    finally:
+        ex.shutdown(wait=True)
+
+
+def _model_checking(rep, what, heap_ev, f_mc, f_heap, f_neg, f_mc4):
+    """Collect the model-checking runs started at the beginning (they ran beside plan execution)."""
+    mc, heap, neg = f_mc.result(), f_heap.result(), f_neg.result()
     rep.add_tlc(mc, what % 3, "EventQueue_mc MaxEv=3", require_actions=MC_ACTIONS)
     require_ok(mc, "EventQueue model checking")
     rep.bounds["mc"] = {"MaxEv": 3, "Ts": "0..2", "kinds": 3, "add_events menu": "empty list, all 81 pairs, two triples",
@@ -560,12 +574,15 @@ def check_C11(tier, seed):
                                                                    % neg.distinct}
     rep.notes.append("negative control of the refinement check: with the array reversed on load TLC refutes Refines (%s)"
                      % neg.violated)
-    if thorough:
-        mc4 = run_tlc("MC_EventQueue", "EventQueue_mc", coverage=False, timeout=1500)
+    if f_mc4 is not None:
+        mc4 = f_mc4.result()
         rep.add_tlc(mc4, what % 4, "EventQueue_mc MaxEv=4")
         require_ok(mc4, "EventQueue model checking (4 events)")
         rep.bounds["mc"]["MaxEv"] = 4
 
+
+def _bind(rep, tier, seed, pool, gen, sim, model_checking):
+    thorough = tier == "thorough"
     plan_sets = []          # (name, plans, share of plans that also get a saturated twin)
     require_ok(gen, "EventQueue plan generation")
     rep.add_tlc(gen, "plan generation, exhaustive: every sequence of 3 calls over the argument menus", "EventQueue_gen MaxOps=3")
@@ -595,7 +612,7 @@ def check_C11(tier, seed):
                 cases.append({"ops": p["ops"], "saturated": True})
     if len(cases) < 1000:
         raise RuntimeError("plan generation produced only %d cases" % len(cases))
-    done = _execute_all(cases)
+    done = pool.map(_work, cases, chunksize=250)
     traces = [d[0] for d in done]
     for d in done:
         rep.replayed += 1
@@ -608,8 +625,9 @@ def check_C11(tier, seed):
     # (C) TLC validates the logs
     batches = list(_chunks(traces, max(2000, min(8000, -(-len(traces) // 4)))))
     batches[0] = batches[0] + st
-    with ThreadPoolExecutor(max_workers=4) as ex:
-        results = list(ex.map(tlc_validate, batches))
+    with ThreadPoolExecutor(max_workers=4) as vex:
+        results = list(vex.map(tlc_validate, batches))
+    model_checking()
     verdict_tlc = []
     tv = {"runs": 0, "states": 0, "wall_s": 0.0}
     for bi, (vs, res) in enumerate(results):
